@@ -108,20 +108,30 @@ def abstract_rule(s, fm, deflt):
     if eff == "regexp":
         if typ == "none":
             raise Unmappable(s)          # default type regexp is not part of the trace universe
-        if pat != pat.lower():
+        maxre = MAXREPAT
+        m = re.match(r"^\\S\+\\\.(.*)\$$", pat)
+        m2 = re.match(r"^\^(.*)\\\.\\S\+\$$", pat)
+        if m:
+            form, body, maxre = "ssuf", m.group(1), 1
+        elif m2:
+            form, body, maxre = "spre", m2.group(1), 1
+        elif pat.startswith("^") and pat != pat.lower() and pat == pat.upper() and not pat.endswith("$"):
+            form, body, maxre = "upper", pat[1:].lower(), 1
+        else:
+            for form, rx in (("bsuf", r"^\(\^\|\\\.\)(.*)\$$"), ("eq", r"^\^(.*)\$$"), ("pre", r"^\^(.*)$"),
+                             ("suf", r"^(.*)\$$"), ("sub", r"^(.*)$")):
+                m = re.match(rx, pat)
+                if m:
+                    body = m.group(1)
+                    break
+        if body != body.lower():
             raise Unmappable(s)
-        for form, rx in (("bsuf", r"^\(\^\|\\\.\)(.*)\$$"), ("eq", r"^\^(.*)\$$"), ("pre", r"^\^(.*)$"),
-                         ("suf", r"^(.*)\$$"), ("sub", r"^(.*)$")):
-            m = re.match(rx, pat)
-            if m:
-                body = m.group(1)
-                break
         if re.search(r"[\^\$\(\)\|\*\+\?\[\]]", body):
             raise Unmappable(s)
         if "." in body.replace("\\.", ""):
             raise Unmappable(s)
         chars = tokenize(body.replace("\\.", "."), fm)
-        return {"t": "regexp", "f": form, "ls": to_labels(chars, 1, MAXREPAT), "k": []}
+        return {"t": "regexp", "f": form, "ls": to_labels(chars, 1, maxre), "k": []}
     chars = tokenize(normalise(pat), fm)
     if typ == "keyword":
         if tuple(chars) not in KWPATS:
@@ -292,7 +302,8 @@ def run(ctx):
     T = ctx.thorough()
     ctx.assumptions += [
         "abstract universe: labels a=<<E,B>>, b=<<B>>, c=<<C>> (b is a string suffix of a), names <= 4 labels, patterns <= 3 labels, "
-        "keywords <= 3 characters, regular expressions restricted to ^p, p$, (^|\\.)p$, ^p$, p with p a dotted label string; "
+        "keywords <= 3 characters, regular expressions restricted to ^p, p$, (^|\\.)p$, ^p$, p with p a dotted label string, plus "
+        "\\S+\\.p$, ^p\\.\\S+$ and ^P (p in upper case) with p one label (expression text is never case-folded); "
         "expected answers come only from DomainSet.tla (TLC); Go concretizes, drives, compares",
         "duplicates of a full / domain rule: the later rule's value is the expected one (hosts-file semantics); any matching "
         "regexp / keyword rule's value is accepted",
